@@ -17,6 +17,8 @@
 
 #include <algorithm>
 #include <atomic>
+#include <condition_variable>
+#include <mutex>
 #include <string>
 #include <unordered_map>
 #include <vector>
@@ -81,7 +83,7 @@ struct State {
   MMap<uintptr_t, TabInfo> tables;
   MVec<Range> ranges;  // element storage handed to the HB detector
   Elem* addr_of[MAXI];
-  size_t max_size = 0;
+  size_t max_size = 0, max_size_at_round_start = 0;
   uint64_t ctor_count = 0, dtor_count = 0;
   PerThread pt[8];
   uint64_t seq = 0;
@@ -361,6 +363,18 @@ struct Runner {
     size_t hint = (size_t)std::max<int64_t>(1, std::min<int64_t>(p.get("hint", 1), 8));
     s.bs = B;
     if (B == 0) { s.bs = 1; while (s.bs < hint) s.bs <<= 1; }
+    // Absolute clock position. With one run per process (Harness.chunk = 1) the
+    // simulator starts the run exactly at cfg t0. If runs share a process
+    // (--chunk N) the clock cannot go back; everything the vector can observe
+    // (deltas, position inside the 64 s unit, the 16-bit timestamp) is
+    // periodic in 65536 units, so move forward to t0 plus whole periods.
+    {
+      const int64_t WRAP = 65536 * COOL;
+      int64_t now = now_ns(), target = p.get("t0", now);
+      while (target < now) target += WRAP;
+      if (target != now) sim::clock_jump(target - now);
+    }
+    const int64_t start_ns = now_ns();
     uint64_t base_blocks = heap_live_blocks(), base_bytes = heap_live_bytes();
     heap_on_free(on_free, nullptr);
     bool ctor_cb = p.get("ctor_cb", 0) != 0;
@@ -370,33 +384,48 @@ struct Runner {
     if (v->block_size() != s.bs) fail("api", "block_size", "block_size() is %zu, expected %zu", v->block_size(), s.bs);
     sim::drain();
     sim::watch(&v->_block_table, sizeof(void*), on_table_change, nullptr);
-    for (int r = 0; r < rounds; r++) {
-      if (r > 0) {
-        char key[16]; snprintf(key, sizeof key, "jump%d", r);
-        int64_t j = std::max<int64_t>(0, std::min<int64_t>(p.get(key, 0), 400));
-        // all workers are joined: nobody is inside an operation
-        sim::clock_jump(j * SEC);
-        if (j >= 64) probe("jump_ge_one_unit_between_rounds");
-        for (auto& t : s.pt) t.known_size = s.max_size;  // join/create orders everything before
-      }
-      std::vector<std::thread> th;
-      for (size_t t = 1; t < p.threads.size() && t < 8; t++) {
-        bool any = false;
-        for (auto& o : p.threads[t]) if ((int)o.c == r) any = true;
-        if (!any) continue;
-        const Plan* pp = &p;
-        th.emplace_back([this, pp, t, r]() {
+    // The plan threads live for the whole run; rounds are separated by a
+    // mutex/condvar barrier (a real synchronisation, as a client would use).
+    // Between rounds nobody is inside an operation and main jumps the clock.
+    std::mutex mu;
+    std::condition_variable cv;
+    int open_round = 0, arrived = 0, nworkers = 0;
+    std::vector<std::thread> th;
+    const Plan* pp = &p;
+    for (size_t t = 1; t < p.threads.size() && t < 8; t++) {
+      if (p.threads[t].empty()) continue;
+      nworkers++;
+      th.emplace_back([this, pp, t, rounds, &mu, &cv, &open_round, &arrived]() {
+        for (int r = 0; r < rounds; r++) {
+          { std::unique_lock<std::mutex> l(mu); cv.wait(l, [&] { return open_round > r; }); }
+          S->pt[t & 7].known_size = std::max(S->pt[t & 7].known_size, S->max_size_at_round_start);
           for (auto& o : pp->threads[t]) {
             if ((int)o.c != r) continue;
             OpScope scope(o.id);
             op((int)t, o);
           }
-        });
+          { std::lock_guard<std::mutex> l(mu); arrived++; }
+          cv.notify_all();
+        }
+      });
+    }
+    for (int r = 0; r < rounds; r++) {
+      if (r > 0) {
+        char key[16]; snprintf(key, sizeof key, "jump%d", r);
+        int64_t j = std::max<int64_t>(0, std::min<int64_t>(p.get(key, 0), 400));
+        // every worker waits at the barrier: nobody is inside an operation
+        sim::clock_jump(j * SEC);
+        if (j >= 64) probe("jump_ge_one_unit_between_rounds");
       }
-      for (auto& t : th) t.join();
+      s.max_size_at_round_start = s.max_size;  // the barrier orders everything of earlier rounds before
+      { std::lock_guard<std::mutex> l(mu); open_round = r + 1; }
+      cv.notify_all();
+      { std::unique_lock<std::mutex> l(mu); cv.wait(l, [&] { return arrived >= nworkers * (r + 1); }); }
       if (r > 0) probe("round_after_jump_completed");
     }
-    int64_t t0 = p.get("t0", 0), unit0 = t0 / COOL, unit1 = now_ns() / COOL;
+    for (auto& t : th) t.join();
+    th.clear(); th.shrink_to_fit();
+    int64_t unit0 = start_ns / COOL, unit1 = now_ns() / COOL;
     if (unit1 != unit0) probe("unit_boundary_crossed_during_run");
     if ((unit0 & 0xffff) > (unit1 & 0xffff)) probe("timestamp_wrapped_during_run");
     // sequential epilogue by the main thread
